@@ -70,7 +70,15 @@ theorem add_sound (I J : Interval) (hI : I.WF) (hJ : J.WF) (hw : J.w = I.w) {x y
   rw [hw] at hJs hJe
   obtain ⟨hx1, hx2, hx3⟩ := hx
   obtain ⟨hy1, hy2, hy3⟩ := hy
-  unfold Interval.add cadd
+  unfold Interval.add
+  split
+  · -- both singletons: the exact (wrapping) sum
+    rename_i hs
+    have hxs : x = I.start := by omega
+    have hys : y = J.start := by omega
+    subst hxs hys
+    exact (Interval.mem_single _ _ _).mpr rfl
+  unfold cadd
   rw [sAOC_spec I.w hw0 hIs hJs, sAOC_spec I.w hw0 hIe hJe]
   by_cases h1 : InRange I.w (I.start + J.start) <;> by_cases h2 : InRange I.w (I.stop + J.stop)
   · simp only [h1, h2, if_true]
@@ -92,6 +100,8 @@ theorem add_wf (I J : Interval) (hI : I.WF) (hJ : J.WF) (hw : J.w = I.w) (hw1 : 
   obtain ⟨_, hJs, hJe, hJle, hJ0, hJd, hJu⟩ := hJ
   rw [hw] at hJs hJe
   unfold Interval.add
+  split
+  · exact ⟨Interval.wf_single _ hw0 _ (wrap_inRange I.w hw0 _), rfl⟩
   rw [sAOC_spec I.w hw0 hIs hJs, sAOC_spec I.w hw0 hIe hJe]
   by_cases h1 : InRange I.w (I.start + J.start) <;> by_cases h2 : InRange I.w (I.stop + J.stop)
   · simp only [h1, h2, if_true]
@@ -118,7 +128,14 @@ theorem sub_sound (I J : Interval) (hI : I.WF) (hJ : J.WF) (hw : J.w = I.w) {x y
   rw [hw] at hJs hJe
   obtain ⟨hx1, hx2, hx3⟩ := hx
   obtain ⟨hy1, hy2, hy3⟩ := hy
-  unfold Interval.sub csub
+  unfold Interval.sub
+  split
+  · rename_i hs
+    have hxs : x = I.start := by omega
+    have hys : y = J.start := by omega
+    subst hxs hys
+    exact (Interval.mem_single _ _ _).mpr rfl
+  unfold csub
   rw [sSOC_spec I.w hw0 hIs hJe, sSOC_spec I.w hw0 hIe hJs]
   by_cases h1 : InRange I.w (I.start - J.stop) <;> by_cases h2 : InRange I.w (I.stop - J.start)
   · simp only [h1, h2, if_true]
@@ -141,6 +158,8 @@ theorem sub_wf (I J : Interval) (hI : I.WF) (hJ : J.WF) (hw : J.w = I.w) (hw1 : 
   obtain ⟨_, hJs, hJe, hJle, hJ0, hJd, hJu⟩ := hJ
   rw [hw] at hJs hJe
   unfold Interval.sub
+  split
+  · exact ⟨Interval.wf_single _ hw0 _ (wrap_inRange I.w hw0 _), rfl⟩
   rw [sSOC_spec I.w hw0 hIs hJe, sSOC_spec I.w hw0 hIe hJs]
   by_cases h1 : InRange I.w (I.start - J.stop) <;> by_cases h2 : InRange I.w (I.stop - J.start)
   · simp only [h1, h2, if_true]
@@ -172,6 +191,15 @@ theorem int2Comp_sound (I : Interval) (hI : I.WF) {x : Int} (hx : I.Mem x) :
   unfold Interval.int2Comp
   split
   · rename_i h
+    by_cases hsing : I.start = I.stop
+    · -- a singleton is negated exactly (also `-MIN = MIN`)
+      have hxs : x = I.start := by omega
+      subst hxs
+      show cneg I.w I.stop ≤ cneg I.w I.start ∧ cneg I.w I.start ≤ cneg I.w I.start ∧
+        (I.stride : Int) ∣ cneg I.w I.start - cneg I.w I.stop
+      rw [← hsing]
+      exact ⟨Int.le_refl _, Int.le_refl _, by simp⟩
+    have h : I.start > smin I.w := h.resolve_left hsing
     have hxin : InRange I.w x := by unfold InRange at *; omega
     rw [(cneg_of_gt_smin I.w hw0 hxin (by omega)).1]
     show cneg I.w I.stop ≤ -x ∧ -x ≤ cneg I.w I.start ∧ (I.stride : Int) ∣ -x - cneg I.w I.stop
@@ -188,6 +216,15 @@ theorem int2Comp_wf (I : Interval) (hI : I.WF) (hw1 : 1 < I.w) :
   unfold Interval.int2Comp
   split
   · rename_i h
+    by_cases hsing : I.start = I.stop
+    · refine ⟨⟨hw0, wrap_inRange I.w hw0 _, wrap_inRange I.w hw0 _, ?_, ?_, ?_, hIu⟩, rfl⟩
+      · show cneg I.w I.stop ≤ cneg I.w I.start
+        rw [hsing]; exact Int.le_refl _
+      · show I.stride = 0 ↔ cneg I.w I.stop = cneg I.w I.start
+        rw [hsing]; simp only [iff_true]; exact hI0.mpr hsing
+      · show (I.stride : Int) ∣ cneg I.w I.start - cneg I.w I.stop
+        rw [hsing]; simp
+    have h : I.start > smin I.w := h.resolve_left hsing
     refine ⟨⟨hw0, ?_, ?_, ?_, ?_, ?_, hIu⟩, rfl⟩
     · show InRange I.w (cneg I.w I.stop)
       rw [(cneg_of_gt_smin I.w hw0 hIe (by omega)).1]; exact (cneg_of_gt_smin I.w hw0 hIe (by omega)).2
